@@ -2,6 +2,8 @@
 intersection points to result rings, endpoint guards).  Closedness, area and orientation of rings are not decided."""
 from rules import fillrules, pirules, cerules, segrules, oprules, walkrules, booltables as bt
 
+from rules import looprules
+
 LEVEL = 'other'
 EXPLANATION = __doc__
 
@@ -28,3 +30,4 @@ def run(ctx, rep):
     segrules.check_clamp(ctx, rep)
     segrules.check_algebra(ctx, rep)
     pirules.check_endpoint_guards(ctx, rep)
+    looprules.check_loops(ctx, rep)
